@@ -21,7 +21,10 @@ open Scalibr.Gen.Registry
 theorem C19_validate_spec (req caps : Caps) : validate req caps = true ↔ satisfied req caps = true := by
   rw [validate_eq_satisfied]
 
-/-- The capability filter keeps exactly the satisfied plugins, in order — for every plugin list. -/
+/-- The capability filter keeps exactly the satisfied plugins, in order — for every plugin list. The specification's
+filter is a PURE FUNCTION of (list, capabilities): calling it again, with other capabilities, on the same list changes
+neither the list nor any earlier result. For the Lean model that is how functions are; for the Go code (slices share
+backing arrays) it is an obligation of its own, checked by the `seq` cases of the correspondence stream. -/
 theorem C19_filter (ps : List Plugin) (caps : Caps) :
     filterByCapabilities ps caps = ps.filter (fun p => satisfied p.req caps) := by
   unfold filterByCapabilities
